@@ -921,6 +921,50 @@ fn once_wait_vs_cancel() {
     });
 }
 
+/// C12 / C06 / C10: a reader holds; write() W1 is announced and waits for it; write() W2 waits on the inner mutex. W1 is
+/// CANCELLED on one thread while W2 is polled on another. Afterwards (every woken task polled again) W2 is the waiting
+/// writer: it has announced itself — try_read fails although only a reader holds the lock — and once the reader leaves it
+/// gets the lock; nothing of W1 is left behind.
+fn rw_cancel_vs_next_writer() {
+    let mut b = loom::model::Builder::new();
+    b.preemption_bound = bound();
+    b.check(|| {
+        EXECUTIONS.fetch_add(1, std::sync::atomic::Ordering::Relaxed);
+        // the futures borrow the Arc and one of them is dropped on another thread: give the Arc a 'static address for
+        // the duration of the execution
+        let lp: *mut std::sync::Arc<RwLock<u32>> = Box::into_raw(Box::new(std::sync::Arc::new(RwLock::new(0u32))));
+        let l: &'static std::sync::Arc<RwLock<u32>> = unsafe { &*lp };
+        let r0 = l.try_read_arc().unwrap();
+        let mut w1 = Task::new(l.write_arc());
+        w1.poll();
+        assert!(w1.pending());
+        let mut w2 = Task::new(l.write_arc());
+        w2.poll();
+        assert!(w2.pending());
+        let t = loom::thread::spawn(move || drop(w1)); // cancellation of the announced writer
+        w2.poll(); // a (possibly spurious) poll of the next writer races with it
+        t.join().unwrap();
+        w2.settle();
+        if w2.out.is_some() {
+            panic!("LOOM-VIOLATION rw_cancel_vs_next_writer: exclusion: a write() completed while a read guard is alive");
+        }
+        if let Some(r) = l.try_read_arc() {
+            drop(r);
+            panic!("LOOM-VIOLATION rw_cancel_vs_next_writer: write preference lost: a polled write() is pending, no write or upgradable guard is alive, every woken task has been polled again, and try_read succeeded (the cancelled writer took the next writer's announcement with it)");
+        }
+        drop(r0);
+        w2.settle();
+        if w2.pending() {
+            panic!("LOOM-VIOLATION rw_cancel_vs_next_writer: lost wake-up: no guard is alive, every woken task has been polled again, the write() is still pending");
+        }
+        drop(w2);
+        if l.try_write_arc().is_none() {
+            panic!("LOOM-VIOLATION rw_cancel_vs_next_writer: everything is gone and try_write fails: something was left behind");
+        }
+        unsafe { drop(Box::from_raw(lp)); }
+    });
+}
+
 fn main() {
     let which = std::env::args().nth(1).unwrap_or_else(|| "all".to_string());
     let tests: Vec<(&str, fn())> = vec![
@@ -939,6 +983,7 @@ fn main() {
         ("rw_writer_announced", rw_writer_announced),
         ("mutex_starved_try", mutex_starved_try),
         ("blocking_forms", blocking_forms),
+        ("rw_cancel_vs_next_writer", rw_cancel_vs_next_writer),
         ("once_wait_vs_cancel", once_wait_vs_cancel),
         ("rw_cancel_vs_last_reader", rw_cancel_vs_last_reader),
         ("mutex_blocking_vs_starved", mutex_blocking_vs_starved),
